@@ -3,6 +3,7 @@ package main
 import (
 	"fmt"
 	"os"
+	"strings"
 )
 
 func init() {
@@ -10,17 +11,19 @@ func init() {
 		return
 	}
 	register("DBG", propMeta{}, func(c *Ctx, r *Run) {
-		fn := c.LookupMethod("protocols/cmp/sign", "round3", "VerifyMessage")
-		for _, g := range liftedGuards(fn, 0) {
-			fmt.Println("G:", g.key(), guardCoversAccepts(g))
-		}
-		h := c.LookupMethod("protocols/cmp/sign", "round3", "verifyMtA")
-		if h != nil {
-			for i := range h.Params {
-				fmt.Println("param", i, paramLabel(h, i))
+		for _, spec := range strings.Split(os.Getenv("MPS_DBG"), ",") {
+			parts := strings.Split(spec, ":")
+			fn := c.LookupMethod(parts[0], parts[1], parts[2])
+			if len(parts) == 3 && parts[1] == "" {
+				fn = c.LookupFunc(parts[0], parts[2])
 			}
-			for _, g := range rejectGuards(h) {
-				fmt.Println("H:", g.key())
+			if fn == nil {
+				fmt.Println("not found", spec)
+				continue
+			}
+			fmt.Println("==", c.FuncName(fn))
+			for _, g := range liftedGuards(fn, 0) {
+				fmt.Println("G:", g.key(), "covers:", guardCoversAccepts(g), c.Pos(g.pos))
 			}
 		}
 	})
